@@ -702,7 +702,7 @@ def run(ctx, model=True):
         res.seen(case, took)
     res.facts["builtin_plans"] = b["summary"]
     res.samples.append({"builtin_sample": b["sample"]})
-    RP.add_to(res, ["nonrewindable-region", "classic-flyer"])
+    RP.add_to(res, ["nonrewindable-region", "classic-flyer", "replayed-group", "noreplay-pause"])
     return res
 
 
